@@ -24,7 +24,8 @@ def trivia(r):
     parts = []
     for _ in range(n):
         x = r.random()
-        parts.append(r.choice(BLANKS) if x < 0.45 else r.choice(COMMENTS) if x < 0.8 else " " + r.choice(DIRECTIVES))
+        # a directive may stand directly behind the token (or the comment) in front of it: it is white space like the rest
+        parts.append(r.choice(BLANKS) if x < 0.45 else r.choice(COMMENTS) if x < 0.8 else r.choice([" ", "", ""]) + r.choice(DIRECTIVES))
     return "".join(parts)
 
 
